@@ -57,7 +57,9 @@ impl St<'_> {
         if !self.fails.iter().any(|f| f.oracle == oracle) {
             self.fails.push(Failure { oracle: oracle.to_string(), msg });
         }
-        self.stop = true;
+        if bsv_core::runner::stops_case(bsv_core::runner::default_owns(bsv_core::runner::current_prop(), oracle)) {
+            self.stop = true;
+        }
     }
     fn note(&mut self, s: impl FnOnce() -> String) {
         if let Some(l) = self.log.as_mut() {
